@@ -2,6 +2,8 @@ SPECIFICATION Spec
 CONSTANTS
     Impl = "ref"
     Kind = "mps"
+    Half = "modes"
+    Temps = {1000}
     MaxBn = 2
     TrackHist = TRUE
     MaxLen = 5
